@@ -1,3 +1,184 @@
 import Nv.OracleIO
-/-! oracle_c11 — stub (model not built yet): answers `bad-op` to every line. -/
-def main : IO Unit := Nv.oracleMain (fun (_ : Unit) _ => ((), "bad-op")) ()
+import Nv.Model.C11
+import Nv.Spec.C11
+import Nv.Gen.C11
+/-!
+oracle_c11 — line protocol. Every output line has two halves: `T <result> len=<n> d=<unread> ## B <result> len=<n> d=<unread>`;
+`T` is the implementation-shaped model of `tex.Buffer` (configuration regenerated from the source), `B` the abstract
+buffer (`bytes.Buffer`). `B -` for operations only tex.Buffer has; `B *` once the script left the compared domain
+(Unread* while a Grow is the last lastRead-relevant operation — the property's own exclusion — or ReWrite).
+
+  init:  `new` | `news <size>` | `newb <bytes> <extraCap>`
+  ops:   `write <bytes>` `writestr <bytes>` `writebyte <hh>` `writerune <int>` `read <k>` `readbyte` `readrune`
+         `unreadbyte` `unreadrune` `next <n>` `truncate <n>` `reset` `grow <n>`
+         `readfrom <bytes> eof|err|neg|over <tail> <k>*` `writeto all|over|short|err [k]`
+         `len` `bytes` `string` `cap` `off` `rewrite <pos> <bytes>`
+  <bytes> ::= `-` | hex | `x<a>:<n>` (n bytes (a + 13 i) mod 256)
+Byte strings longer than 24 are printed as `#<len>:<fnv1a-64>`.
+-/
+open Nv Nv.C11
+
+def hexVal (c : Char) : Option Nat :=
+  if '0' ≤ c ∧ c ≤ '9' then some (c.toNat - '0'.toNat)
+  else if 'a' ≤ c ∧ c ≤ 'f' then some (c.toNat - 'a'.toNat + 10)
+  else none
+
+def parseHexList : List Char → Option Bytes
+  | [] => some []
+  | a :: b :: rest => do
+    let x ← hexVal a
+    let y ← hexVal b
+    let r ← parseHexList rest
+    pure (UInt8.ofNat (x * 16 + y) :: r)
+  | _ => none
+
+def patBytes (a n : Nat) : Bytes := (List.range n).map (fun i => UInt8.ofNat ((a + 13 * i) % 256))
+
+def parseBytes (s : String) : Option Bytes :=
+  if s == "-" then some []
+  else if s.startsWith "x" then
+    match ((s.drop 1).toString.splitOn ":") with
+    | [a, n] => do
+      let a ← a.toNat?
+      let n ← n.toNat?
+      if n > 1000000 then none else pure (patBytes a n)
+    | _ => none
+  else parseHexList s.toList
+
+def hexDigit (n : Nat) : Char := if n < 10 then Char.ofNat (48 + n) else Char.ofNat (87 + n)
+def hexByte (b : UInt8) : String := String.ofList [hexDigit (b.toNat / 16), hexDigit (b.toNat % 16)]
+
+def fnv (d : Bytes) : UInt64 := d.foldl (fun h b => (h ^^^ b.toUInt64) * 0x100000001b3) 0xcbf29ce484222325
+
+def hex64 (x : UInt64) : String :=
+  String.ofList ((List.range 16).map (fun i => hexDigit ((x.toNat >>> (4 * (15 - i))) % 16)))
+
+def showBytes (d : Bytes) : String :=
+  if d.isEmpty then "-"
+  else if d.length ≤ 24 then String.join (d.map hexByte)
+  else s!"#{d.length}:{hex64 (fnv d)}"
+
+def showErr : Err → String
+  | .nil => "nil" | .eof => "EOF" | .unreadByte => "unreadbyte" | .unreadRune => "unreadrune"
+  | .shortWrite => "short" | .readerErr => "rerr" | .writerErr => "werr"
+
+def showPan : Pan → String
+  | .truncateRange => "truncate-range" | .growNegative => "grow-negative" | .tooLarge => "too-large"
+  | .negativeRead => "negative-read" | .invalidWriteCount => "invalid-write-count"
+  | .sliceBounds => "slice-bounds" | .makeslice => "makeslice"
+
+def showOut : Out → String
+  | .ok => "ok"
+  | .nErr n e => s!"n={n} err={showErr e}"
+  | .err e => s!"err={showErr e}"
+  | .readRes n d e => s!"n={n} d={showBytes d} err={showErr e}"
+  | .byteRes b e => s!"b={hexByte b} err={showErr e}"
+  | .runeRes r sz e => s!"r={r} size={sz} err={showErr e}"
+  | .data d => s!"d={showBytes d}"
+  | .int n => s!"{n}"
+  | .wrote n got e => s!"n={n} got={match got with | some d => showBytes d | none => "none"} err={showErr e}"
+  | .panic p => s!"panic:{showPan p}"
+
+def view (d : Bytes) : String := s!"len={d.length} d={showBytes d}"
+
+structure O where
+  impl : St
+  spec : Spec.SSt
+  taint : Bool      -- a Grow happened and no operation since has (re)assigned lastRead
+  desync : Bool     -- the script left the domain compared with bytes.Buffer
+  started : Bool
+
+def O.init : O := ⟨St.zero, Spec.SSt.empty, false, false, false⟩
+
+def parseOp (ws : List String) : Option Op :=
+  match ws with
+  | ["write", b] => (parseBytes b).map .write
+  | ["writestr", b] => (parseBytes b).map .writeString
+  | ["writebyte", b] => match parseBytes b with | some [x] => some (.writeByte x) | _ => none
+  | ["writerune", r] => (parseInt? r).bind (fun r => if -2147483648 ≤ r ∧ r ≤ 2147483647 then some (.writeRune r) else none)
+  | ["read", k] => (parseNat? k).map .read
+  | ["readbyte"] => some .readByte
+  | ["readrune"] => some .readRune
+  | ["unreadbyte"] => some .unreadByte
+  | ["unreadrune"] => some .unreadRune
+  | ["next", n] => (parseInt? n).map .next
+  | ["truncate", n] => (parseInt? n).map .truncate
+  | ["reset"] => some .reset
+  | ["grow", n] => (parseInt? n).map .grow
+  | "readfrom" :: b :: t :: tail :: ks => do
+    let d ← parseBytes b
+    let term ← (match t with | "eof" => some RTerm.eof | "err" => some .err | "neg" => some .neg | "over" => some .over | _ => none)
+    let tail ← parseNat? tail
+    let ks ← ks.mapM parseNat?
+    pure (.readFrom ⟨d, ks, tail, term⟩)
+  | ["writeto", "all"] => some (.writeTo .all)
+  | ["writeto", "over"] => some (.writeTo .over)
+  | ["writeto", "short", k] => (parseNat? k).map (fun k => .writeTo (.short k))
+  | ["writeto", "err", k] => (parseNat? k).map (fun k => .writeTo (.err k))
+  | ["len"] => some .len
+  | ["bytes"] => some .bytes
+  | ["string"] => some .string
+  | ["cap"] => some .cap
+  | ["off"] => some .off
+  | ["rewrite", pos, b] => do
+    let pos ← parseInt? pos
+    let d ← parseBytes b
+    pure (.rewrite pos d)
+  | _ => none
+
+def texOnly : Op → Bool
+  | .cap | .off | .rewrite _ _ => true
+  | _ => false
+
+def isUnread : Op → Bool
+  | .unreadByte | .unreadRune => true
+  | _ => false
+
+def keepsTaint : Op → Bool
+  | .len | .bytes | .string | .cap | .off | .rewrite _ _ => true
+  | _ => false
+
+def isGrow : Op → Bool
+  | .grow _ => true
+  | _ => false
+
+def line (ti : St) (to : Out) (b : String) : String := s!"T {showOut to} {view ti.data} ## B {b}"
+
+def step (o : O) (l : String) : O × String :=
+  match words l with
+  | ["new"] =>
+    let o' : O := ⟨St.zero, Spec.SSt.empty, false, false, true⟩
+    (o', line o'.impl .ok s!"ok {view []}")
+  | ["news", n] =>
+    match parseInt? n with
+    | some n =>
+      if n < 0 ∨ n > (allocLimit : Int) then
+        let o' : O := ⟨St.zero, Spec.SSt.empty, false, false, true⟩
+        (o', line o'.impl (.panic .makeslice) s!"ok {view []}")
+      else
+        let o' : O := ⟨St.sized n.toNat, Spec.SSt.empty, false, false, true⟩
+        (o', line o'.impl .ok s!"ok {view []}")
+    | none => (o, "bad-op")
+  | ["newb", b, extra] =>
+    match parseBytes b, parseNat? extra with
+    | some d, some e =>
+      let o' : O := ⟨St.ofBytes d e, Spec.SSt.ofBytes d, false, false, true⟩
+      (o', line o'.impl .ok s!"ok {view d}")
+    | _, _ => (o, "bad-op")
+  | ws =>
+    if !o.started then (o, "bad-op")
+    else match parseOp ws with
+    | none => (o, "bad-op")
+    | some op =>
+      let (ti, to) := C11.step Nv.Gen.C11.cfg o.impl op
+      let desync := o.desync || (o.taint && isUnread op) || (match op with | .rewrite _ _ => true | _ => false)
+      let taint := if isGrow op then true else if keepsTaint op then o.taint else false
+      if desync then
+        (⟨ti, o.spec, taint, true, true⟩, line ti to "*")
+      else if texOnly op then
+        (⟨ti, o.spec, taint, false, true⟩, line ti to "-")
+      else
+        let (si, so) := Spec.step o.spec op
+        (⟨ti, si, taint, false, true⟩, line ti to s!"{showOut so} {view si.data}")
+
+def main : IO Unit := oracleMain step O.init
